@@ -30,7 +30,7 @@ ASSUMPTIONS = [
     "exactly as in a list'; __setitem__ documents key as 'either the mnemonic or the index')",
 ]
 
-NAMES = ["A", "a", "b", "", "1", "A:1"]
+NAMES = ["A", "a", "b", "", "1", "A:1", "GR"]
 PLAIN = "plain value"
 
 _STATES = {}
@@ -73,7 +73,12 @@ def reachable_states(tier):
 def probes_for(keys):
     n = len(keys)
     out = []
-    strs = sm.distinct(list(keys) + ["ZZ", ""] + [k.swapcase() for k in keys if k.swapcase() != k] + ["1", "0"])
+    variants = []
+    for k in keys:
+        for v in (k.swapcase(), k.capitalize(), k.lower(), k.upper()):
+            if v != k:
+                variants.append(v)
+    strs = sm.distinct(list(keys) + ["ZZ", ""] + variants + ["1", "0"])
     for k in strs:
         out.append(["str", k])
     for i in sm.distinct([0, 1, -1, n, -n - 1]):
@@ -101,11 +106,22 @@ class State(object):
         self.items = self.d.items()
         self.keys = [it.mnemonic for it in self.items]
         self.values = [it.value for it in self.items]
+        # contents of the items as well (unit, value, description, curve samples): "never changes the section"
+        self.content = [self._content(it) for it in self.items]
+
+    @staticmethod
+    def _content(it):
+        import numpy as np
+
+        data = getattr(it, "data", None)
+        d = None if data is None else (str(np.asarray(data).dtype), np.asarray(data).tobytes() if np.asarray(data).dtype.kind != "O" else repr(list(data)))
+        return (it.original_mnemonic, repr(it.unit), repr(it.value), repr(it.descr), d)
 
     def unchanged(self):
         now = self.d.items()
         return (len(now) == len(self.items) and all(a is b for a, b in zip(now, self.items))
-                and [it.mnemonic for it in now] == self.keys and self.s.keys() == self.keys)
+                and [it.mnemonic for it in now] == self.keys and self.s.keys() == self.keys
+                and [self._content(it) for it in now] == self.content)
 
     def show(self):
         return sm.render(self.d.items())
